@@ -14,6 +14,7 @@ import (
 )
 
 type Engine struct {
+	byFnPanic map[*ssa.Function]*Contract
 	constGlobalsDone bool
 	constGlobalList  []*ssa.Global
 	repo        string
@@ -171,6 +172,12 @@ func (e *Engine) Load() error {
 		}
 		if !c.Extra {
 			e.byFn[c.fn] = c
+		}
+		if c.Panics != "" {
+			if e.byFnPanic == nil {
+				e.byFnPanic = map[*ssa.Function]*Contract{}
+			}
+			e.byFnPanic[c.fn] = c
 		}
 		for _, ls := range c.Loops {
 			for _, n := range ls.invFns {
